@@ -448,7 +448,7 @@ def split_path(path):
 
 def short(e, depth=12):
     """Compact human-readable rendering (diagnostics, evidence samples)."""
-    if not isinstance(e, tuple):
+    if not isinstance(e, tuple) or not e:
         return str(e)
     if depth <= 0:
         return "…"
